@@ -15,8 +15,10 @@ pub const S2: char = '\u{e001}';
 /// letters stay accented) and "xr" (reductions ONLY: nothing is composed, a free-standing mark stays a mark).
 /// And "xd": a BUNDLED language extended after construction through the same public calls (German plus an
 /// acute-accent composition and its folding), as an application does that needs a letter the shipped tables lack.
-pub const LANGS: [&str; 11] = ["none", "de", "en", "es", "fr", "pt", "ru", "xk", "xc", "xr", "xd"];
-pub const NL: u64 = 11;
+/// And "xs": `Lang::new()` with nothing but a Snowball stemmer set through `set_stemmer` (Dutch, which the library
+/// does not bundle: its stemmer folds accents that no reduction table of the language folds first).
+pub const LANGS: [&str; 12] = ["none", "de", "en", "es", "fr", "pt", "ru", "xk", "xc", "xr", "xd", "xs"];
+pub const NL: u64 = 12;
 
 /// The bundled language a user-extended language starts from (its function words, stemmer, vocabulary).
 pub fn base_lang(lang: &str) -> &str {
@@ -99,6 +101,11 @@ pub fn mk_lang(name: &str) -> Lang {
         "pt" => lang_portuguese(),
         "ru" => lang_russian(),
         "xk" => lang_custom(),
+        "xs" => {
+            let mut lang = Lang::new();
+            lang.set_stemmer(Some(rust_stemmers::Stemmer::create(rust_stemmers::Algorithm::Dutch)));
+            lang
+        }
         "xc" => lang_compose_only(),
         "xd" => {
             let mut lang = lang_german();
